@@ -26,6 +26,11 @@ CLAIMED = {
             "For every sampled valid file the complete single-damage catalogue (60-110 instances) and sampled ordered pairs are applied to the stored image; each damaged image is opened with recovery enabled (through SimSource, also with short reads) and catalog, page count and every object are compared with the intact image. The library's own tracing event tells whether recovery was entered, which separates the one known root cause (damaged table accepted, recovery never entered) from unfaithful recovery.",
             "The intact file as read by the library is the reference. Files and damage pairs are sampled by seed; single damages are exhausted per file. Known findings (known_findings.jsonl) cover the 'accepted-damaged-xref' family only.",
             "DESIGN.md §4 C19, §2.2"),
+    "C20": ("exploration",
+            "deterministic simulation: the same authoring program serialised under many owned OS-entropy streams, fixed and advancing clocks, owned pid",
+            "Seeded search over (authoring program x writer configuration); each program is serialised on fresh threads under 8 (quick) / 26 (thorough) entropy streams including all-zero and all-0xFF, with the clock held fixed: all outputs must be byte-identical; a guard run repeats one stream (any difference would reveal an unowned source); with the clock advancing only the masked date fields may differ. A difference is reported with the two entropy seeds that produce it and replays exactly.",
+            "Entropy, clock and pid are owned via LD_PRELOAD (sim/libsim); the seam self-test fails the run (exit 2) if the preload is ineffective. Cross-process repetition is covered by the determinism self-test (same seeds, different worker processes).",
+            "DESIGN.md §4 C20, §1.1"),
     "C22": ("exploration",
             "deterministic simulation: shuttle seeded random/PCT schedules of the real worker pool with injected job failures, panics and cancellation",
             "Seeded search over schedules of dispatcher, 1-4 workers, collector, progress poller and a canceller thread, with job outcome vectors over {Ok, Err, Panic}; oracles O1-O6 over the recorded history; deadlock and bounded-progress detection by the scheduler.",
